@@ -64,6 +64,35 @@ func HarnessC11Buffered()      { c11Replay(2, 1, 1, false) }
 func HarnessC11PreSub()        { c11Replay(1, 2, 0, true) }
 func HarnessC11TwoSubsTwoMsgs() { c11Replay(2, 2, 0, false) }
 
+// HarnessC11TwoPublishers: the very first Publish calls on a fresh topic come from two goroutines at once; a
+// subscription made afterwards still gets both messages, once each.
+func HarnessC11TwoPublishers() {
+	g := NewGoChannel(Config{Persistent: true}, watermill.NopLogger{})
+	done := make(chan struct{}, 2)
+	for k := 0; k < 2; k++ {
+		k := k
+		go func() {
+			vrt.Assert(g.Publish("fresh", newMsg(k)) == nil, "publish succeeds")
+			done <- struct{}{}
+		}()
+	}
+	<-done
+	<-done
+	ch, err := g.Subscribe(context.Background(), "fresh")
+	vrt.Assert(err == nil, "subscribe")
+	counts := map[string]int{}
+	go func() {
+		vrt.MayBlock()
+		for m := range ch {
+			counts[m.UUID]++
+			m.Ack()
+		}
+	}()
+	vrt.AtQuiescence(func() {
+		vrt.Assert(counts["u0"] == 1 && counts["u1"] == 1, "every subscription receives every successfully published message exactly once")
+	})
+}
+
 // HarnessC11BlockingBatch: Persistent + BlockPublishUntilSubscriberAck; one Publish call carries two
 // messages while a Subscribe arrives at an arbitrary moment; a subscription already exists.
 func HarnessC11BlockingBatch() {
